@@ -15,6 +15,9 @@ CONSTANTS
   FixRevertVerify = FALSE
   FixUnderflow = FALSE
   Fine = TRUE
+  EmptyDiff = {}
+  RootCheckedOnEmptyDiff = TRUE
+  VerdictPerAnswer = TRUE
 INIT TraceInit
 NEXT TraceNext
 CONSTRAINT TraceConstraint
